@@ -190,6 +190,9 @@ DOMNode* DOMElementNSImpl::rename(const XMLCh* namespaceURI, const XMLCh* name)
 {
     setName(namespaceURI, name);
     fAttributes->reconcileDefaultAttributes(getDefaultAttributes());
+
+    // live getElementsByTagName lists must notice the new name
+    fParent.changed();
     // and fire user data NODE_RENAMED event
     castToNodeImpl(this)->callUserDataHandlers(DOMUserDataHandler::NODE_RENAMED, this, this);
 
